@@ -200,6 +200,28 @@ impl<'t> Glob<'t> {
         };
         Anchor { root, pivot }
     }
+
+    /// Verification hook (H2): patterns of the per-component programs used to prune a walk.
+    #[cfg(olson_sean_k_wax_verif)]
+    pub fn verif_walk_component_patterns(&self) -> Vec<String> {
+        if self.is_empty() {
+            vec![]
+        }
+        else {
+            WalkProgram::compile::<Tokenized<_>>(self.tree.as_ref())
+                .expect("failed to compile walk program")
+                .iter()
+                .map(|regex| regex.as_str().to_string())
+                .collect()
+        }
+    }
+
+    /// Verification hook (H2): root path and pivot of a walk of this glob from `path`.
+    #[cfg(olson_sean_k_wax_verif)]
+    pub fn verif_walk_anchor(&self, path: impl Into<PathBuf>) -> (PathBuf, usize) {
+        let Anchor { root, pivot } = self.anchor(path);
+        (root, pivot)
+    }
 }
 
 /// Root path and pivot of a `Glob` when walking a particular target path.
@@ -517,6 +539,31 @@ impl FilterAny {
     pub fn residue(&self, entry: &dyn Entry) -> Option<EntryResidue> {
         let candidate = CandidatePath::from(entry.root_relative_paths().1);
         self.program.residue(candidate)
+    }
+
+    /// Verification hook (H3): patterns of the exhaustive and nonexhaustive partitions.
+    #[cfg(olson_sean_k_wax_verif)]
+    pub fn verif_partition_patterns(&self) -> (Option<String>, Option<String>) {
+        use FilterAnyProgram::{Empty, Exhaustive, Nonexhaustive, Partitioned};
+
+        match self.program {
+            Empty => (None, None),
+            Exhaustive(ref exhaustive) => (Some(exhaustive.as_str().to_string()), None),
+            Nonexhaustive(ref nonexhaustive) => (None, Some(nonexhaustive.as_str().to_string())),
+            Partitioned {
+                ref exhaustive,
+                ref nonexhaustive,
+            } => (
+                Some(exhaustive.as_str().to_string()),
+                Some(nonexhaustive.as_str().to_string()),
+            ),
+        }
+    }
+
+    /// Verification hook (H3): residue for candidate path text rather than an `Entry`.
+    #[cfg(olson_sean_k_wax_verif)]
+    pub fn verif_residue(&self, candidate: &str) -> Option<EntryResidue> {
+        self.program.residue(CandidatePath::from(candidate))
     }
 }
 
